@@ -37,6 +37,8 @@ type funcTarget struct {
 	valueOf  string // translate the leading statements up to the first store of this local variable into the receiver's memory and return its value there
 	fragTag  string // fragment mode: translate the first `switch <fragTag>` statement ...
 	fragOut  string // ... as a function of fragTag returning the final value of fragOut
+	exprOf   string   // emit the right-hand side of the first `var x = e` / `x := e` of this local (anywhere in the body) as a function of its free variables
+	loops    bool     // with conds: also emit the conditions of the top-level `for` statements (<name>_loop<k>)
 	state    []string // receiver fields (as f_<path>) whose final values are returned next to the results: stores into them
 	//                   become let-bindings, every return becomes the tuple (results..., state...)
 }
@@ -65,6 +67,10 @@ var funcTargets = []funcTarget{
 	{pkg: "gws", recv: "Conn", name: "compressData", conds: true},
 	{pkg: "gws", recv: "limitedReader", name: "Read", skeleton: true, state: []string{"f_N"}},
 	{pkg: "gws", recv: "workerQueue", name: "getJob", skeleton: true, state: []string{"f_curConcurrency"}},
+	{pkg: "internal", name: "MaskXOR", exprOf: "key64"},
+	{pkg: "internal", name: "MaskXOR", exprOf: "idx"},
+	{pkg: "internal", name: "MaskByByte", exprOf: "idx"},
+	{pkg: "internal", name: "MaskXOR", conds: true, loops: true},
 	{pkg: "internal", name: "binaryCeil"},
 	{pkg: "internal", name: "ToBinaryNumber"},
 	{pkg: "internal", name: "BinaryPow"},
@@ -747,6 +753,60 @@ func genFuncs(pkgs []*packages.Package) string {
 			unsupported = append(unsupported, name+": function not found")
 			continue
 		}
+		if tg.exprOf != "" {
+			recvName := ""
+			if fd.Recv != nil && len(fd.Recv.List[0].Names) == 1 {
+				recvName = fd.Recv.List[0].Names[0].Name
+			}
+			var rhs ast.Expr
+			ast.Inspect(fd.Body, func(n ast.Node) bool {
+				if rhs != nil {
+					return false
+				}
+				switch x := n.(type) {
+				case *ast.AssignStmt:
+					if x.Tok == token.DEFINE && len(x.Lhs) == 1 && len(x.Rhs) == 1 {
+						if id, ok := x.Lhs[0].(*ast.Ident); ok && id.Name == tg.exprOf {
+							rhs = x.Rhs[0]
+						}
+					}
+				case *ast.ValueSpec:
+					if len(x.Names) == 1 && len(x.Values) == 1 && x.Names[0].Name == tg.exprOf {
+						rhs = x.Values[0]
+					}
+				}
+				return true
+			})
+			ename := name + "_" + tg.exprOf
+			if rhs == nil {
+				unsupported = append(unsupported, ename+": definition not found")
+				continue
+			}
+			tc := &ftr{info: info, tgt: tg, params: map[string]string{}, free: map[string]string{}, recv: recvName}
+			e := tc.expr(rhs)
+			if tc.err != "" {
+				unsupported = append(unsupported, ename+": "+tc.err)
+				continue
+			}
+			all := map[string]string{}
+			for k, v := range tc.params {
+				all[k] = v
+			}
+			for k, v := range tc.free {
+				all[k] = v
+			}
+			var names []string
+			for k := range all {
+				names = append(names, k)
+			}
+			sort.Strings(names)
+			fmt.Fprintf(&b, "(* %s.%s.%s: the value given to `%s` *)\nDefinition %s", tg.pkg, tg.recv, tg.name, tg.exprOf, ename)
+			for _, k := range names {
+				fmt.Fprintf(&b, " (%s : %s)", k, all[k])
+			}
+			fmt.Fprintf(&b, " :=\n  %s.\n\n", e)
+			continue
+		}
 		if tg.conds {
 			recvName := ""
 			if fd.Recv != nil && len(fd.Recv.List[0].Names) == 1 {
@@ -787,6 +847,41 @@ func genFuncs(pkgs []*packages.Package) string {
 				fmt.Fprintf(&b, " : bool :=\n  %s.\n\n", e)
 			}
 			fmt.Fprintf(&b, "Definition %s_nconds : nat := %d.\n\n", name, n)
+			if tg.loops {
+				k := 0
+				for _, st := range fd.Body.List {
+					fs, ok := st.(*ast.ForStmt)
+					if !ok || fs.Cond == nil {
+						continue
+					}
+					k++
+					tc := &ftr{info: info, tgt: tg, params: map[string]string{}, free: map[string]string{}, recv: recvName}
+					e := tc.expr(fs.Cond)
+					cname := fmt.Sprintf("%s_loop%d", name, k)
+					if tc.err != "" {
+						unsupported = append(unsupported, cname+": "+tc.err)
+						continue
+					}
+					all := map[string]string{}
+					for kk, v := range tc.params {
+						all[kk] = v
+					}
+					for kk, v := range tc.free {
+						all[kk] = v
+					}
+					var names []string
+					for kk := range all {
+						names = append(names, kk)
+					}
+					sort.Strings(names)
+					fmt.Fprintf(&b, "(* %s.%s.%s: condition of top-level for #%d *)\nDefinition %s", tg.pkg, tg.recv, tg.name, k, cname)
+					for _, kk := range names {
+						fmt.Fprintf(&b, " (%s : %s)", kk, all[kk])
+					}
+					fmt.Fprintf(&b, " : bool :=\n  %s.\n\n", e)
+				}
+				fmt.Fprintf(&b, "Definition %s_nloops : nat := %d.\n\n", name, k)
+			}
 			continue
 		}
 		t := &ftr{info: info, tgt: tg, params: map[string]string{}}
